@@ -138,6 +138,9 @@ def run(tier):
     runs += run_sync(rec, std["v1"], [x for x in pick(6, 1) if x[0] == "getnext"])
     runs += asyncio.run(run_async(rec, std["v3-md5-des"], pick(8, 2)))
     runs += run_sync(rec, std["v3-noauth"], pick(12, 3))
+    # several walks alive in one process (abandoned / nested / interleaved; one session or two): what a walk yields comes from the
+    # replies to ITS requests only - never rows another walk left behind
+    runs += c05.multi_runs(rec, thorough)
     rec.close()
     print("  %d walks, %d events" % (len(runs), rec.n), flush=True)
     v = trace.validate_parallel("TraceSession.tla", "TraceSession.cfg", rec.events, [(a, b) for a, b, _ in runs], k=14, name="c06")
@@ -145,6 +148,9 @@ def run(tier):
         chk.add_tlc(r, "TraceSession(c06)#%d" % i)
     chk.traces += len(runs)
     for a, b, info in runs:
+        if "multi" in info:
+            chk.case(("multi", info["kind"], info["cfg"], info["multi"], info["variant"], info["two"]))
+            continue
         chk.case((info["kind"], info["ver"], info["op"], json.dumps(info["script"])), nontrivial=any(x["kind"] == "val" for r in info["script"] for x in r))
     ri = 0
     for idxf in v["fails"]:
@@ -152,6 +158,12 @@ def run(tier):
             ri += 1
         a, b, info = runs[ri]
         ev = rec.events[idxf]
+        if "multi" in info:
+            chk.violation(dict(multi=info["multi"], client=info["kind"], ev=ev["ev"], got=ev.get("exc") or "ok"),
+                          "%s %s, two walks %s (%s, variant %d): %s of walk %s: %s" % (info["kind"], info["cfg"], info["multi"], "two sessions" if info["two"] else "one session",
+                          info["variant"], ev["ev"], ev.get("sid"), ev.get("exc") or json.dumps(ev.get("res"))[:100]),
+                          dict(info=info), confirm=confirm_by_replay(c05.replay, dict(info=info)))
+            continue
         sig = dict(op=info["op"], ev=ev["ev"], got=ev.get("exc") or "ok", shape=shape(info["script"]))
         chk.violation(sig, "%s %s %s walk, agent script %s: %s %s" % (info["kind"], info["ver"], info["op"], json.dumps(info["script"])[:160], ev["ev"], ev.get("exc") or json.dumps(ev.get("res"))[:80]),
                       dict(info=info), confirm=confirm_by_replay(replay, dict(info=info)))
@@ -162,6 +174,11 @@ def run(tier):
 def replay(path):
     d = json.load(open(path))
     info = d["replay"]["info"]
+    if "multi" in info:
+        rc = c05.replay(path)
+        if rc == 1:
+            print("VIOLATION property=C06 replay=%s" % path)
+        return rc
     std = scripts.std_cfgs()
     cfgname = {"v1": "v1", "v2c": "v2c"}.get(info["ver"], "v3-md5-des")
     rec = trace.Recorder("c06-replay")
